@@ -245,7 +245,15 @@ impl Pair {
             Op::BindGGate => self.bind("g", &Type::Gate(2, 1))?,
             Op::BindHw => self.bind("$0", &Type::HardwareQubit)?,
             Op::LookupA | Op::LookupB => {
-                // the look-up itself is part of the observation vector
+                // a look-up on the table itself (the observation below works on a copy, so this
+                // is the only look-up that can leave a trace in the table)
+                let name = if op == Op::LookupA { "a" } else { "b" };
+                let got = catch(|| self.imp.lookup(name).map(|rec| id_num(&rec.symbol_id()))).map_err(|p| format!("lookup {} panicked: {}", name, p.message))?;
+                match (got, self.reference.lookup(name)) {
+                    (Ok(id), Some(e)) if id == e => {}
+                    (Err(SymbolError::MissingBinding), None) => {}
+                    (g, e) => return Err(format!("lookup {}: implementation {:?}, reference {:?}", name, g, e)),
+                }
             }
             Op::LookupOrNewA => {
                 let got = catch(|| self.imp.lookup_or_new_binding("a", &t_int()))
@@ -260,7 +268,9 @@ impl Pair {
                 self.sync_ids();
             }
         }
-        self.observe()
+        // the observation runs on a copy: whatever a look-up may leave behind in the table
+        // (a cache, say) must not hide behind the observations themselves
+        self.clone().observe()
     }
 
     /// Compare the full observation vector.
